@@ -184,6 +184,77 @@ def check_chunking(rep, fb, rule_prefix="buf.chunk"):
                 rep.undecided(rule_prefix, inst, str(e), loc)
 
 
+def check_chunking_long(rep, fb, rule_prefix="buf.chunk"):
+    """C08, deeper: a short piece followed by a long one, and a long piece followed by a short
+    one, produce the bytes and the state of the concatenated piece.  Decided by substituting the
+    first call's state term into the second call's summary (same block decomposition symbols)."""
+    cr, types = buffered_types(fb)
+    pos = Lin.sym("self.pos")
+    n = Lin.sym("data.len")
+    for ty in types:
+        inst = "cfb_mode::" + ty["adt"]["path"]
+        if ty["proc"] is None:
+            continue
+        loc = loc_of(ty["proc"])
+        paths, err = run_proc(fb, cr, ty)
+        if paths is None:
+            rep.undecided(rule_prefix + ".compose", inst, err, loc)
+            continue
+        short = [p for p in paths if p["F"].prove_ge(BS - pos - n - 1)]
+        long_ = [p for p in paths if not p["F"].prove_ge(BS - pos - n - 1)]
+        if len(short) != 1 or len(long_) != 1:
+            rep.undecided(rule_prefix + ".compose", inst, "expected one short and one long path", loc)
+            continue
+        ps, pl = short[0], long_[0]
+        try:
+            dec = pl["state"].decomp.get((n - (BS - pos), BS))
+            if dec is None:
+                raise Undecided("no block decomposition recorded on the long path")
+            m, r = dec
+            so, sK = ps["cells"]["data"][1], ps["cells"]["self"][2]["iv"][1]
+            lo_, lK = pl["cells"]["data"][1], pl["cells"]["self"][2]["iv"][1]
+            n1, n2 = Lin.sym("n1"), Lin.sym("n2")
+            # ---- short(n1) ; long(n2)  ==  long(n1+n2), total = (bs-pos) + m*bs + r
+            Fc = pl["F"].copy()
+            Fc.add_ge(n1)
+            Fc.add_ge(BS - 1 - pos - n1)
+            Fc.add_eq(n1 + n2 - n)
+            Fc.add_ge(n2 - (BS - pos - n1))
+            T.declare_var("d1", n1)
+            T.declare_var("d2", n2)
+            T.declare_var("data", n)
+            T.declare_var("self.iv", BS)
+            o1 = T.bsubst(so, {"data": T.bvar("d1")}, {"data.len": n1}, Fc)
+            K1 = T.bsubst(sK, {"data": T.bvar("d1")}, {"data.len": n1}, Fc)
+            o2 = T.bsubst(lo_, {"data": T.bvar("d2"), "self.iv": K1}, {"data.len": n2, "self.pos": pos + n1}, Fc)
+            K2 = T.bsubst(lK, {"data": T.bvar("d2"), "self.iv": K1}, {"data.len": n2, "self.pos": pos + n1}, Fc)
+            both = T.bnorm(T.bvar("d1") + T.bvar("d2"), Fc)
+            oo = T.bsubst(lo_, {"data": both}, None, Fc)
+            KK = T.bsubst(lK, {"data": both}, None, Fc)
+            rep.ob(rule_prefix + ".short-long.out", inst, T.bequal(T.bnorm(o1 + o2, Fc), oo, Fc), "a short piece then a long piece produce the bytes of the concatenated piece", loc, computed=T.bshow(T.bnorm(o1 + o2, Fc)), expected=T.bshow(oo))
+            rep.ob(rule_prefix + ".short-long.state", inst, T.bequal(K2, KK, Fc), "and leave the same block", loc, computed=T.bshow(K2), expected=T.bshow(KK))
+            # ---- long(n1) ; short(n2)  ==  long(n1+n2) with remainder r+n2 < bs
+            rsym = [x for x in r.symbols()]
+            if len(rsym) != 1 or r != Lin.sym(rsym[0]):
+                raise Undecided("remainder is not a plain symbol")
+            Fd = pl["F"].copy()
+            Fd.add_ge(n2)
+            Fd.add_ge(BS - 1 - r - n2)
+            T.declare_var("d1", n)
+            o1 = T.bsubst(lo_, {"data": T.bvar("d1")}, None, Fd)
+            K1 = T.bsubst(lK, {"data": T.bvar("d1")}, None, Fd)
+            o2 = T.bsubst(so, {"data": T.bvar("d2"), "self.iv": K1}, {"data.len": n2, "self.pos": r}, Fd)
+            K2 = T.bsubst(sK, {"data": T.bvar("d2"), "self.iv": K1}, {"data.len": n2, "self.pos": r}, Fd)
+            both = T.bnorm(T.bvar("d1") + T.bvar("d2"), Fd)
+            T.declare_var("data", n + n2)
+            oo = T.bsubst(lo_, {"data": both}, {"data.len": n + n2, rsym[0]: r + n2}, Fd)
+            KK = T.bsubst(lK, {"data": both}, {"data.len": n + n2, rsym[0]: r + n2}, Fd)
+            rep.ob(rule_prefix + ".long-short.out", inst, T.bequal(T.bnorm(o1 + o2, Fd), oo, Fd), "a long piece then a short piece produce the bytes of the concatenated piece", loc, computed=T.bshow(T.bnorm(o1 + o2, Fd)), expected=T.bshow(oo))
+            rep.ob(rule_prefix + ".long-short.state", inst, T.bequal(K2, KK, Fd), "and leave the same block", loc, computed=T.bshow(K2), expected=T.bshow(KK))
+        except (Undecided, KeyError) as e:
+            rep.undecided(rule_prefix + ".compose", inst, str(e), loc)
+
+
 def check_state(rep, fb, rule_prefix="buf.state"):
     """C09: from_state(c, get_state()) is the field-wise identity."""
     cr, types = buffered_types(fb)
